@@ -129,6 +129,8 @@ pub fn check_extraction<L: SimLang, N: Analysis<L>>(s: &mut Sess<L, N>, kind: Si
         }
     }
     let mut seen_bound: Vec<Slot> = Vec::new();
+    // slots invented by earlier results of this extractor: a later result must not invent them again
+    let mut shown_fresh: std::collections::HashSet<Slot> = std::collections::HashSet::new();
     for id in ids {
         let cls_slots: Vec<Slot> = s.eg.slots(id).iter().copied().collect();
         // identity invocation and a renamed one
@@ -200,8 +202,15 @@ pub fn check_extraction<L: SimLang, N: Analysis<L>>(s: &mut Sess<L, N>, kind: Si
             let tm = from_re::<L>(&re, &mut s.nm);
             for x in tm.free() {
                 let real = s.nm.slot(x);
-                if !args.contains(&real) && (!Naming::is_unknown(x) || existing.contains(&real)) {
+                if !args.contains(&real) && (!Naming::is_unknown(x) || existing.contains(&real) || shown_fresh.contains(&real)) {
                     return Some(viol("result_free_slots", format!("extract({inv:?}) = {tm} has the free slot ${x} which is neither an argument nor new"), at));
+                }
+                if !args.contains(&real) {
+                    // a name invented for a redundant parameter: the caller may spell it later too
+                    shown_fresh.insert(real);
+                    if !seen_bound.contains(&real) && seen_bound.len() < 64 {
+                        seen_bound.push(real);
+                    }
                 }
             }
             // cost recomputed independently
